@@ -217,6 +217,22 @@ func (p c15) Run(par *fw.Parent) *fw.Result {
 		}
 		jobs = append(jobs, histJob{ID: fmt.Sprintf("repeat-ties-%d", k), Kind: "repeat", Reqs: seq})
 	}
+	// QR mask choice: about one short content in a hundred has two masks with the same
+	// lowest penalty; whichever the encoder picks, it must pick it every time
+	for k := 0; k < 4; k++ {
+		var seq []Req
+		for j := 0; j < 150; j++ {
+			q := Req{Fam: "qr", S: []byte(fmt.Sprintf("TIE-%d", r.Intn(100000))), I: []int64{int64(r.Intn(4)), 0}, Scheme: -1}
+			if j%3 == 0 {
+				q.S = randBytes(r, 1+r.Intn(12), allAB)
+				q.I[1] = 3
+			}
+			for rep := 0; rep < 8; rep++ {
+				seq = append(seq, q)
+			}
+		}
+		jobs = append(jobs, histJob{ID: fmt.Sprintf("repeat-qrmask-%d", k), Kind: "repeat", Reqs: seq})
+	}
 	// (c) every ordered pair of RS degrees, each in a fresh process
 	pairs := func(idx []int, label string) {
 		for _, a := range idx {
